@@ -27,6 +27,56 @@ Proof.
     destruct (add_nodes _ _ _ _ _ _ _ _) as [[[[g cu] pn] pb]|]; cbn [bind] in H; [|discriminate]. injection H as <-. split; reflexivity.
   - cbn [bind] in H. destruct (add_nodes _ _ _ _ _ _ _ _) as [[[[g cu] pn] pb]|]; cbn [bind] in H; [|discriminate]. injection H as <-. split; reflexivity.
 Qed.
+(** ** the keys of the recipe table are pairwise different (all that a multiplied branch needs since the
+    expansion slice starts at the closing anchor's own entry: fix ee9caf1) *)
+Definition ninv (st : rstate) : Prop := NoDup (map fst (s_recipes st)).
+Lemma ozdec (a b : option Z) : {a = b} + {a <> b}.
+Proof. decide equality. apply Z.eq_dec. Qed.
+Lemma nodup_snoc {A} (l : list A) k : NoDup l -> ~ In k l -> NoDup (l ++ [k]).
+Proof.
+  induction 1 as [|x l Hx Hl IH]; cbn [app]; intros Hk.
+  - constructor; [intros []|constructor].
+  - constructor.
+    + intros C. apply in_app_or in C as [C|[C|[]]]; [now apply Hx|subst; apply Hk; now left].
+    + apply IH. intros C. apply Hk. now right.
+Qed.
+Lemma rec_del_keys_incl k d y : In y (map fst (rec_del k d)) -> In y (map fst d).
+Proof.
+  induction d as [|[k' v] r IH]; cbn [rec_del map fst]; intros H; [exact H|].
+  destruct (oz_eqb k k'); [now right|]. cbn [map fst] in H. destruct H as [H|H]; [now left|right; now apply IH].
+Qed.
+Lemma rec_del_nodup k d : NoDup (map fst d) -> NoDup (map fst (rec_del k d)) /\ ~ In k (map fst (rec_del k d)).
+Proof.
+  induction d as [|[k' v] r IH]; cbn [rec_del map fst]; intros H.
+  - split; [constructor|intros []].
+  - inversion H as [|? ? Hn Hr]; subst. destruct (oz_eqb k k') eqn:E.
+    + apply oz_eqb_eq in E. subst. split; [exact Hr|exact Hn].
+    + destruct (IH Hr) as [I1 I2]. cbn [map fst]. split.
+      * constructor; [intros C; apply Hn; eapply rec_del_keys_incl; exact C|exact I1].
+      * intros [C|C]; [subst; rewrite oz_eqb_refl in E; discriminate|now apply I2].
+Qed.
+Lemma rec_set_nodup k v d : NoDup (map fst d) -> NoDup (map fst (rec_set k v d)).
+Proof.
+  intros H. destruct (in_dec ozdec k (map fst d)) as [Hi|Hi].
+  - now rewrite rec_set_keys_in.
+  - rewrite rec_set_keys_notin by assumption. now apply nodup_snoc.
+Qed.
+Lemma rec_append_nodup k e d : NoDup (map fst d) -> NoDup (map fst (rec_append k e d)).
+Proof. intros H. unfold rec_append. now apply rec_set_nodup. Qed.
+Lemma opened_ninv st pc br ba rc : opened st pc = Ok (br, ba, rc) -> ninv st -> NoDup (map fst rc).
+Proof.
+  unfold opened, ninv. intros H Hn. destruct (Ascii.eqb pc "("%char).
+  - destruct (match s_prev_node st with Some p => node_attrs (s_g st) p | None => Err EKey end) as [a|]; cbn [bind] in H; [|discriminate].
+    injection H as _ _ <-. apply rec_set_nodup. now apply rec_del_nodup.
+  - injection H as _ _ <-. exact Hn.
+Qed.
+Lemma ninv_part fo st pc nm rest st1 : node_part fo st pc nm rest = Ok st1 -> ninv st -> ninv st1.
+Proof.
+  intros H Hn. destruct (node_part_recipes fo st pc nm rest st1 H) as (br & ba & rc & e & Eop & _ & Erc).
+  pose proof (opened_ninv st pc br ba rc Eop Hn) as Hrc. unfold ninv. rewrite Erc.
+  destruct br; [|exact Hrc]. destruct (rev ba); [exact Hrc|now apply rec_append_nodup].
+Qed.
+
 Lemma minv_part fo st x pc nm rest st1 s md (op : bool) :
   Rel st x -> TI fo x s -> t_flag s = false -> minv md st -> Ascii.eqb pc "("%char = op ->
   node_part fo st pc nm rest = Ok st1 ->
@@ -66,17 +116,18 @@ Qed.
 (** ** one iteration on an item with closings, with the state of the recipe table *)
 Lemma node_step_x_mode fo x k st m pc s md :
   xlin_ok fo x = true -> contz k -> (x_closes x = [] -> cont k) -> Rel st m ->
-  TI fo m s -> t_flag s = false -> minv md st ->
+  TI fo m s -> t_flag s = false -> minv md st -> ninv st ->
   (Ascii.eqb pc "("%char = x_open x) -> (x_open x = true -> exists p, m_prev m = Some p /\ has_node (m_g m) p = true) ->
   (length (x_closes x) <= length (if x_open x then m_prev m :: m_stack m else m_stack m))%nat ->
   match x_effect fo x m with
   | Ok m2 => exists st2, node_step fo st pc (x_name x) (lin_tail_str (xbase x) ++ closes_str (x_closes x) ++ k) = Ok st2
                          /\ Rel st2 m2
                          /\ minv (mode_closes (mode_open md (x_open x)) (length (x_closes x)) (is_nil (m_stack m2))) st2
+                         /\ ninv st2
   | Err e => node_step fo st pc (x_name x) (lin_tail_str (xbase x) ++ closes_str (x_closes x) ++ k) = Err e
   end.
 Proof.
-  intros Hok Hk Hk0 HR HT Hfl Hm Hpc Hop Hlen. destruct (xlin_ok_parts fo x Hok) as (Hokb & Hbond & Hcs).
+  intros Hok Hk Hk0 HR HT Hfl Hm Hnv Hpc Hop Hlen. destruct (xlin_ok_parts fo x Hok) as (Hokb & Hbond & Hcs).
   rewrite node_step_parts. unfold x_effect.
   assert (Hstop : stopk (closes_str (x_closes x) ++ k)).
   { destruct (x_closes x) as [|a r] eqn:Ec; cbn [closes_str flat_map app].
@@ -87,6 +138,7 @@ Proof.
   destruct (item_effect fo (xbase x) m) as [m1|e] eqn:Eeff; cbn [bind]; [|now rewrite Hpart].
   destruct Hpart as (st1 & Ep & HR1 & Hat1 & Hpb1 & _). rewrite Ep. cbn [bind].
   pose proof (minv_part fo st m pc _ _ st1 s md (x_open x) HR HT Hfl Hm Hpc Ep) as Hmid.
+  pose proof (ninv_part fo st pc _ _ st1 Ep Hnv) as Hnv1.
   assert (Hm1 : m_stack m1 = (if x_open x then m_prev m :: m_stack m else m_stack m) /\ m_pend m1 = oord (x_bond x)).
   { unfold item_effect in Eeff. cbn [xbase l_name l_open l_mult l_rings l_bond l_close] in Eeff.
     destruct (parse_graph_base_node fo (x_name x)) as [a|]; [|discriminate]. cbn [bind] in Eeff.
@@ -105,6 +157,12 @@ Proof.
   - now rewrite Es1.
   - cbn [app]. rewrite !app_length. pose proof (closes_str_length (x_closes x)). lia.
   - rewrite Em. exists st2. split; [exact El|]. split; [exact HR2|].
+    assert (Hnv2 : ninv st2).
+    { destruct (x_closes x) as [|a r] eqn:Ec; [now rewrite (Hnil eq_refl)|].
+      unfold ninv. destruct (m_stack m2) as [|z t] eqn:E2.
+      - rewrite (Hrec ltac:(discriminate) eq_refl). constructor.
+      - rewrite (Hkeep ltac:(discriminate)). exact Hnv1. }
+    split; [|exact Hnv2].
     assert (Hns : mode_open md (x_open x) <> Sib) by (destruct md, (x_open x); discriminate).
     destruct (x_closes x) as [|a r] eqn:Ec.
     + rewrite (Hnil eq_refl). cbn [length mode_closes]. destruct (mode_open md (x_open x)); cbn [minv]; [exact Hmid|now elim Hns|exact I].
@@ -143,17 +201,18 @@ Lemma gunit_sim2 fo u cs K : gunit_ok fo u = true -> contz K -> closes_ok cs = t
   Rel st x -> m_prev x = Some ak -> node_attrs (m_g x) ak = Ok a0 -> parse_graph_base_node fo (u_name u) = Ok a0 ->
   m_pend x = oord (u_bond u) ->
   rec_set (Some ak) [(1, a0, Some 1)] (rec_del (Some ak) (s_recipes st)) = rc ++ [(Some ak, [(1, a0, Some 1)])] ->
-  length rc = length (m_stack x) -> rec_get (Some ak) rc = None -> (length cs <= length (m_stack x))%nat -> Forall skipch pre ->
+  rec_get (Some ak) rc = None -> (length cs <= length (m_stack x))%nat -> Forall skipch pre ->
   match m_run fo (gunit_toks u ++ closes_toks cs) x with
   | Ok x1 => exists st1 pre1,
       main_loop (length (u_body u) + f) fo pc (pre ++ (gunit_str u ++ closes_str cs) ++ K) st = main_loop f fo "]"%char (pre1 ++ K) st1
       /\ Forall skipch pre1 /\ Rel st1 x1 /\ (m_stack x1 = [] -> s_recipes st1 = []) /\ m_stack x1 = skipn (length cs) (m_stack x)
+      /\ (s_recipes st1 = [] \/ exists e, s_recipes st1 = rc ++ [(Some ak, e)])
   | Err e => main_loop (length (u_body u) + f) fo pc (pre ++ (gunit_str u ++ closes_str cs) ++ K) st = Err e
   end.
 Proof.
-  intros Hok HK Hcs Haft st x pre pc f ak a0 rc HR Ep Hat Ea0 Hpd Hset Hlen Habs Hlcs Hpre.
+  intros Hok HK Hcs Haft st x pre pc f ak a0 rc HR Ep Hat Ea0 Hpd Hset Habs Hlcs Hpre.
   destruct (gunit_ok_parts fo u Hok) as (Hna & Hbne & Hbo & Hlb & Hd & HN).
-  pose proof (unit_body_gen fo u ak a0 (m_stack x) rc cs K Ea0 Hna Hbo Hd HK Hcs Haft Hlcs Hlen Habs (u_body u) true st x
+  pose proof (unit_body_gen fo u ak a0 (m_stack x) rc cs K Ea0 Hna Hbo Hd HK Hcs Haft Hlcs Habs (u_body u) true st x
                 (pre ++ ["("%char]) pc f [] Hbne HR) as Hbody.
   assert (Hf1 : m_stack x = m_stack x /\ m_prev x = Some ak
                 /\ rec_set (Some ak) [(1, a0, Some 1)] (rec_del (Some ak) (s_recipes st)) = rc ++ [(Some ak, [(1, a0, Some 1)])]
@@ -211,7 +270,7 @@ Proof. induction 1; cbn; congruence. Qed.
 (** [br]: the text stands in braces *)
 Theorem sim_g2segs fo (br : bool) : forall l md s st x pre pc f,
   forallb (g2seg_ok fo) l = true -> g2track md s l = true ->
-  Rel st x -> TI fo x s -> t_flag s = false -> minv md st ->
+  Rel st x -> TI fo x s -> t_flag s = false -> minv md st -> ninv st ->
   Forall skipch pre -> pc <> "("%char ->
   match m_run fo (g2segs_toks l) x with
   | Ok x1 => exists st1, main_loop (g2segs_nodes l + Datatypes.S f) fo pc (pre ++ g2segs_str l ++ tail_of br) st = Ok st1
@@ -219,7 +278,7 @@ Theorem sim_g2segs fo (br : bool) : forall l md s st x pre pc f,
   | Err e => main_loop (g2segs_nodes l + Datatypes.S f) fo pc (pre ++ g2segs_str l ++ tail_of br) st = Err e
   end.
 Proof.
-  induction l as [|[xi|u cs] t IH]; intros md s st x pre pc f Hok Htr HR HT Hfl Hm Hpre Hpc.
+  induction l as [|[xi|u cs] t IH]; intros md s st x pre pc f Hok Htr HR HT Hfl Hm Hnv Hpre Hpc.
   - cbn [g2segs_toks flat_map m_run g2segs_str app g2segs_nodes plus main_loop]. exists st.
     destruct HR as (Rg & _ & _ & Rcy & _). split; [|split; assumption].
     assert (Hnob : Forall nob (pre ++ tail_of br)).
@@ -274,9 +333,9 @@ Proof.
     + assert (Hk0 : x_closes xi = [] -> cont k).
       { intros Ec. apply Hkc. rewrite Ec in Hsp. cbn [is_nil andb] in Hsp.
         destruct t as [|? ?]; [|left; discriminate]. destruct br; [now right|]. now elim Hsp. }
-      pose proof (node_step_x_mode fo xi k st x _ s md Hokx Hkz Hk0 HR HT Hfl Hm Hpc' Hop2 Hlen) as Hstep.
+      pose proof (node_step_x_mode fo xi k st x _ s md Hokx Hkz Hk0 HR HT Hfl Hm Hnv Hpc' Hop2 Hlen) as Hstep.
       destruct (x_effect fo xi x) as [x2|e] eqn:Eeff; cbn [bind]; [|now rewrite Hstep].
-      destruct Hstep as (st2 & Est & HR2 & Hm2). rewrite Est. cbn [bind].
+      destruct Hstep as (st2 & Est & HR2 & Hm2 & Hnv2). rewrite Est. cbn [bind].
       assert (Erun : m_run fo (xlin_toks xi) x = Ok x2).
       { rewrite <- (app_nil_r (xlin_toks xi)), (m_xitem fo xi [] x Hokb), Eeff. reflexivity. }
       assert (Etr : trun (xlin_toks xi) s = Some s2).
@@ -288,7 +347,7 @@ Proof.
       assert (Enil : is_nil (m_stack x2) = is_nil (t_names s2)) by (apply (Forall2_is_nil _ _ _ (ti_stack fo x2 s2 HT2))).
       rewrite Enil in Hm2.
       rewrite app_assoc. unfold k.
-      apply (IH _ s2 st2 x2 (lin_tail_str (xbase xi) ++ closes_str (x_closes xi)) "]"%char f Hokt Htr HR2 HT2 Hfl2 Hm2).
+      apply (IH _ s2 st2 x2 (lin_tail_str (xbase xi) ++ closes_str (x_closes xi)) "]"%char f Hokt Htr HR2 HT2 Hfl2 Hm2 Hnv2).
       * now apply (xlin_tail_skipch fo).
       * discriminate.
   - (* a multiplied branch with closings *)
@@ -307,35 +366,28 @@ Proof.
     pose proof HR as (Rg & Rc & Rp & Rcy & Rba & Rbr & Rpb).
     assert (Hnotin : ~ In (Some ak) (s_branch_anchor st)).
     { rewrite Rba, <- in_rev. now apply (TI_prev_fresh fo x s ak HT Hfl). }
-    assert (Hrc : exists rc, rec_set (Some ak) [(1, a0, Some 1)] (rec_del (Some ak) (s_recipes st)) = rc ++ [(Some ak, [(1, a0, Some 1)])]
-                             /\ length rc = length (m_stack x) /\ rec_get (Some ak) rc = None).
-    { destruct md; [| |discriminate]; cbn [minv] in Hm.
-      - exists (s_recipes st). split; [|split].
-        + rewrite rec_del_absent by (apply rec_get_notin; now rewrite Hm). apply rec_set_absent. apply rec_get_notin. now rewrite Hm.
-        + transitivity (length (map fst (s_recipes st))); [symmetry; apply map_length|]. rewrite Hm, Rba. apply rev_length.
-        + apply rec_get_notin. now rewrite Hm.
-      - rewrite Rp, Ep in Hm. destruct (map_fst_snoc _ _ _ Hm) as (rc & old & Erc & Ekeys).
-        exists rc. split; [|split].
-        + rewrite Erc. rewrite rec_del_app by (apply rec_get_notin; now rewrite Ekeys). apply rec_set_absent. apply rec_get_notin. now rewrite Ekeys.
-        + transitivity (length (map fst rc)); [symmetry; apply map_length|]. rewrite Ekeys, Rba. apply rev_length.
-        + apply rec_get_notin. now rewrite Ekeys. }
-    destruct Hrc as (rc & Hset & Hlen & Habs).
+    destruct (rec_del_nodup (Some ak) (s_recipes st) Hnv) as [Hndrc Hninrc].
+    set (rc := rec_del (Some ak) (s_recipes st)) in *.
+    assert (Habs : rec_get (Some ak) rc = None) by (now apply rec_get_notin).
+    assert (Hset : rec_set (Some ak) [(1, a0, Some 1)] rc = rc ++ [(Some ak, [(1, a0, Some 1)])]) by (now apply rec_set_absent).
     assert (Haft : cs <> [] -> u_after u = None).
     { intros Hne. destruct cs; [contradiction|]. cbn [is_nil orb] in Haftb. now destruct (u_after u). }
     assert (Hlcs : (length cs <= length (m_stack x))%nat).
     { pose proof (pops_track_len _ _ _ Ept) as Hl. cbn [tmk t_names] in Hl.
       rewrite (Forall2_length_eq _ _ _ (ti_stack fo x s HT)). exact Hl. }
     pose proof (gunit_sim2 fo u cs K Hoku HK Hcs Haft st x pre pc (g2segs_nodes t + Datatypes.S f) ak a0 rc HR Ep Hat Ea0
-                  (eq_trans (ti_pend fo x s HT) Hpd) Hset Hlen Habs Hlcs Hpre) as Hu.
+                  (eq_trans (ti_pend fo x s HT) Hpd) Hset Habs Hlcs Hpre) as Hu.
     replace (length (u_body u) + g2segs_nodes t + Datatypes.S f)%nat with (length (u_body u) + (g2segs_nodes t + Datatypes.S f))%nat by lia.
     rewrite <- app_assoc. fold K.
     destruct (m_run fo (gunit_toks u ++ closes_toks cs) x) as [x1|e] eqn:Erun; cbn [bind]; [|exact Hu].
-    destruct Hu as (st1 & pre1 & -> & Hpre1 & HR1 & Hrc1 & Hstk1).
+    destruct Hu as (st1 & pre1 & -> & Hpre1 & HR1 & Hrc1 & Hstk1 & Htab1).
+    assert (Hnv1 : ninv st1).
+    { unfold ninv. destruct Htab1 as [->|(e1 & ->)]; [constructor|]. rewrite map_app. cbn [map fst]. now apply nodup_snoc. }
     assert (Etr : trun (gunit_toks u ++ closes_toks cs) s = Some s2).
     { rewrite trun_app, (trun_gunit fo u s Hbne Hbo Ecur Hfl), trun_closes. exact Ept. }
     pose proof (m_run_TI fo _ x x1 s s2 Erun Etr HT) as HT1.
     assert (Hfl2 : t_flag s2 = false) by (apply (pops_track_flag _ _ _ Ept); reflexivity).
-    unfold K. apply (IH _ _ st1 x1 pre1 "]"%char f Hokt Htrt HR1 HT1 Hfl2); [|assumption|discriminate].
+    unfold K. apply (IH _ _ st1 x1 pre1 "]"%char f Hokt Htrt HR1 HT1 Hfl2); [|exact Hnv1|assumption|discriminate].
     destruct (t_names s2) as [|n0 r0] eqn:En; cbn [is_nil minv]; [|exact I].
     pose proof (ti_stack fo x1 s2 HT1) as Hs2. rewrite En in Hs2. inversion Hs2 as [E0|]; subst.
     destruct HR1 as (_ & _ & _ & _ & Rba1 & _). rewrite Rba1, <- E0. rewrite Hrc1 by (now rewrite <- E0). reflexivity.
@@ -404,7 +456,7 @@ Proof.
   { unfold f, text. rewrite !app_length. lia. }
   rewrite Ef.
   pose proof (sim_g2segs fo br l Clean t_init init_state m_init (if br then ["{"%char] else @nil ascii) (last text " "%char) f Hok Htr HR
-                (TI_init fo) eq_refl eq_refl) as Hsim.
+                (TI_init fo) eq_refl eq_refl (NoDup_nil _)) as Hsim.
   assert (H2 : Forall skipch (if br then ["{"%char] else @nil ascii)) by (destruct br; repeat constructor; discriminate).
   specialize (Hsim H2 Hpc). fold text in Hsim.
   destruct (m_run fo (g2segs_toks l) m_init) as [x1|e].
